@@ -31,6 +31,7 @@ struct ArrayCollection {
 
 /// Main storage for async Zarr MCMC traces
 pub struct ZarrAsyncTraceStorage {
+    store_warmup: bool,
     arrays: Arc<ArrayCollection>,
     draw_chunk_size: u64,
     param_types: Vec<(String, ItemType)>,
@@ -41,6 +42,7 @@ pub struct ZarrAsyncTraceStorage {
 
 /// Per-chain storage for async Zarr MCMC traces
 pub struct ZarrAsyncChainStorage {
+    store_warmup: bool,
     draw_buffers: HashMap<String, SampleBuffer>,
     stats_buffers: HashMap<String, SampleBuffer>,
     arrays: Arc<ArrayCollection>,
@@ -276,6 +278,7 @@ impl ZarrAsyncChainStorage {
         chain: u64,
         rt_handle: tokio::runtime::Handle,
         event_dim_of_stat: HashMap<String, String>,
+        store_warmup: bool,
     ) -> Self {
         let draw_buffers: HashMap<String, SampleBuffer> = draw_types
             .iter()
@@ -294,6 +297,7 @@ impl ZarrAsyncChainStorage {
             stats_buffers,
             arrays,
             chain,
+            store_warmup,
             last_sample_was_warmup: true,
             event_dim_of_stat,
             warmup_event_counts: HashMap::new(),
@@ -429,6 +433,10 @@ impl ChainStorage for ZarrAsyncChainStorage {
         draws: Vec<(&str, Option<Value>)>,
         info: &Progress,
     ) -> Result<()> {
+        if info.tuning && !self.store_warmup {
+            return Ok(());
+        }
+
         let is_first_draw = self.last_sample_was_warmup && !info.tuning;
         if is_first_draw {
             self.warmup_event_counts = self.event_counts();
@@ -715,6 +723,7 @@ impl StorageConfig for ZarrAsyncConfig {
             }
             let store = self.store;
             let draw_chunk_size = self.draw_chunk_size;
+            let store_warmup = self.store_warmup;
 
             let mut root = GroupBuilder::new().build(store.clone(), &group_path)?;
 
@@ -876,6 +885,7 @@ impl StorageConfig for ZarrAsyncConfig {
                 draw_chunk_size,
                 event_dim_of_stat,
                 rt_handle,
+                store_warmup,
             })
         })
     }
@@ -895,6 +905,7 @@ impl TraceStorage for ZarrAsyncTraceStorage {
             chain_id as _,
             self.rt_handle.clone(),
             self.event_dim_of_stat.clone(),
+            self.store_warmup,
         ))
     }
 
